@@ -769,10 +769,12 @@ impl W {
 fn run(case: &Case, out: &mut Out) {
     let mut w: Option<W> = None;
     let mut dead = false;
+    let mut _claim: Option<std::net::TcpListener> = None;
     for op in &case.ops {
         match op.name.as_str() {
             "worker" => {
-                let base = pick_base();
+                let (base, claim) = pick_base();
+                _claim = Some(claim);
                 let wk = start(base);
                 start_backends(base, &wk.stop);
                 start_udp_backends(base, &wk.stop);
@@ -980,15 +982,23 @@ fn run(case: &Case, out: &mut Out) {
 static NEXT_BLOCK: std::sync::atomic::AtomicUsize = std::sync::atomic::AtomicUsize::new(0);
 
 /// a block of 8 ports below the ephemeral range that nobody is using right now (a worker
-/// run in a thread never closes its listen sockets, so every case takes a fresh block)
-fn pick_base() -> u16 {
+/// run in a thread never closes its listen sockets, so every case takes a fresh block).
+/// The block is claimed by binding its last port, which nothing else uses, and keeping that
+/// socket for the duration of the case: two drivers running at the same time (two benches,
+/// two tiers) can then never take the same block between the probe and the binds.
+fn pick_base() -> (u16, std::net::TcpListener) {
     let pid = std::process::id() as usize;
     for _ in 0..2700 {
         let n = NEXT_BLOCK.fetch_add(1, std::sync::atomic::Ordering::Relaxed);
         let base = 10000 + (((pid * 61 + n) % 2700) as u16) * 8;
-        let free = (0u16..6).all(|d| std::net::TcpListener::bind(("127.0.0.1", base + d)).is_ok());
+        let Ok(claim) = std::net::TcpListener::bind(("127.0.0.1", base + 7)) else {
+            continue;
+        };
+        let free = (0u16..6).all(|d| {
+            std::net::TcpListener::bind(("127.0.0.1", base + d)).is_ok() && std::net::UdpSocket::bind(("127.0.0.1", base + d)).is_ok()
+        });
         if free {
-            return base;
+            return (base, claim);
         }
     }
     panic!("no free port block");
